@@ -348,10 +348,14 @@ def build_unit(cases, group=6, extra_decl=''):
     for k, c in enumerate(cases):
         parts.append(c.decl.replace('@', str(k)))
     for g in range(0, len(cases), group):
-        body = ''.join('\tmark(%d);\n\t{ %s }\n' % (k, cases[k].drive.replace('@', str(k))) for k in range(g, min(g + group, len(cases))))
-        parts.append('static void drv%d(void) {\n%s}\n' % (g, body))
-        drv.append('\tdrv%d();\n' % g)
-    parts.append('int main(void) {\n%s\tprintf("#end\\n");\n\treturn cnt & 63;\n}\n' % ''.join(drv))
+        body = ''.join('\tif (from <= %d) {\n\t\tmark(%d);\n\t\t{ %s }\n\t}\n' % (k, k, cases[k].drive.replace('@', str(k)))
+                       for k in range(g, min(g + group, len(cases))))
+        parts.append('static void drv%d(int from) {\n%s}\n' % (g, body))
+        drv.append('\tdrv%d(from);\n' % g)
+    # the optional argument is the number of the first case to run: after a case has crashed the harness restarts behind it
+    parts.append('int main(int argc, char **argv) {\n\tint from = 0;\n'
+                 '\tif (argc > 1) for (const char *p = argv[1]; *p; p++) from = from * 10 + (*p - \'0\');\n'
+                 '%s\tprintf("#end\\n");\n\treturn cnt & 63;\n}\n' % ''.join(drv))
     return ''.join(parts)
 
 
